@@ -202,12 +202,14 @@ fn lzma_expected_size_case(r: &mut Rng) -> Vec<CaseOut> {
     let data = gen::gen_data(r, Family::Text, n);
     let partition = gen::gen_partition(r, n);
     let header = r.chance(3, 4);
+    // the general constructor allows an end marker together with an expected size
+    let marker = if expected.is_none() { true } else { r.chance(1, 2) };
     let o = opts(r, 4096);
-    let cell = format!("LZMAWriter|expected-{ename}|{}", if header { "header" } else { "no-header" });
-    let desc = format!("LZMAWriter expected={expected:?} actual={n} header={header} writes={}", partition.len());
+    let cell = format!("LZMAWriter|expected-{ename}|{}|{}", if header { "header" } else { "no-header" }, if marker { "eos" } else { "no-eos" });
+    let desc = format!("LZMAWriter::new(header={header}, end_marker={marker}, expected={expected:?}) actual={n} writes={}", partition.len());
     let res = catch(|| {
         let mut sink = Vec::new();
-        let mut w = if header { LZMAWriter::new_use_header(&mut sink, &o, expected) } else { LZMAWriter::new(&mut sink, &o, false, expected.is_none(), expected) }?;
+        let mut w = LZMAWriter::new(&mut sink, &o, header, marker, expected)?;
         let mut accepted = 0u64;
         let mut write_err = None;
         let mut off = 0;
